@@ -56,14 +56,17 @@ TRUSTED = ["hand model Aegean.Model.C06 (sigmaclip, box, grid, bilinear interpol
            "theorems are about"]
 PARTIAL = [
     "rms_shift_invariant_own_partial: for the pinned subtraction (own rows only) zero-point invariance of the noise "
-    "map is proved for a single stripe only; with two stripes it is false (rms_shift_own_two_stripes_false). The "
-    "full theorem rms_shift_invariant is about the repaired subtraction (fixes/C06-01)",
-    "rms_in_range_own_partial: likewise 0 <= noise <= range for the pinned subtraction, one stripe only",
+    "map is proved for a single stripe only; with two stripes it is false (d2Fn_own_leaks_offset + the evaluated "
+    "#guard witness in Properties/C06.lean: noise 0 -> 0.25 on a 4x2 toy). The full theorem rms_shift_invariant is "
+    "about the repaired subtraction (fixes/C06-01); rms_in_range and const_image are likewise stated for it",
     "statistical clause (stationary Gaussian noise of mean m and rms s gives maps equal to m and s within sampling "
     "error): NOT a theorem; sampled by the harness on Gaussian images (exploration): |bkg-m| <= 6 s/sqrt(n) and "
     "|rms/s - 0.986| <= 0.05 + 6/sqrt(2n), n = smallest box population",
-    "finite_far_from_blanks is proved in the form 'all four surrounding boxes free of blanks and non-empty => finite'; "
-    "the metric form (farther than box/2+grid from every blank) is checked on the implementation by the harness",
+    "finite_far_from_blanks (every pixel farther than box/2+grid from all blank pixels is finite): proved only at "
+    "box level (nodeVal_isSome: a non-empty box that reads no blank gives a finite node; no_blanks_no_nans for "
+    "blank-free images); the metric form is checked on the implementation by the harness ('far-pixels-checked')",
+    "masked_iff_nonfinite is an iff with the interpolants' own NaNs as a disjunct; 'NaN iff input non-finite' "
+    "follows only where the interpolants are finite (no_blanks_no_nans)",
     "float rounding / float32 cast: sampled (tolerance class F32), not proved",
 ]
 
@@ -216,57 +219,108 @@ class Hang(Exception):
     pass
 
 
+JOB_TIMEOUT = 10.0   # seconds without progress before the child is killed (a BANE run takes ~0.1 s)
+MAX_HANG_FRACTION = 0.15
+
+
+def _run_chunk(d, chunk):
+    """run one chunk in a child; returns (started ids, done ids, stderr tail, timed_out)"""
+    import signal
+    spec = dict(repo=common.repo_path(), dir=d,
+                jobs=[{k: v for k, v in j.items() if not k.startswith('_')} for j in chunk])
+    jf = os.path.join(d, f"jobs_{chunk[0]['id']}.json")
+    json.dump(spec, open(jf, 'w'))
+    env = dict(os.environ)
+    env['PYTHONPATH'] = common.repo_path() + os.pathsep + env.get('PYTHONPATH', '')
+    errf = open(os.path.join(d, 'worker.err'), 'w+')
+    p = subprocess.Popen([sys.executable, HERE, '--worker', jf], stdout=subprocess.PIPE, stderr=errf,
+                         text=True, start_new_session=True, cwd=d, env=env, bufsize=1)
+    import queue
+    import threading
+    q = queue.Queue()
+
+    def pump():
+        for line in p.stdout:
+            q.put(line)
+        q.put(None)
+    threading.Thread(target=pump, daemon=True).start()
+    started, done, timed_out = [], set(), False
+    last = time.time()
+    limit = JOB_TIMEOUT + 35.0      # imports of astropy/scipy in the child
+    while True:
+        try:
+            line = q.get(timeout=1.0)
+        except queue.Empty:
+            if time.time() - last > limit:
+                timed_out = True
+                break
+            continue
+        if line is None:
+            break
+        last = time.time()
+        limit = JOB_TIMEOUT
+        w = line.split()
+        if len(w) == 2 and w[0] == 'START':
+            started.append(int(w[1]))
+        elif len(w) == 2 and w[0] == 'DONE':
+            done.add(int(w[1]))
+    if timed_out:
+        try:
+            os.killpg(p.pid, signal.SIGKILL)
+        except ProcessLookupError:
+            pass
+    p.wait()
+    errf.seek(0)
+    err = errf.read()[-600:]
+    errf.close()
+    return started, done, err, timed_out, p.returncode
+
+
 def run_jobs(ctx, jobs):
-    """run the jobs in a child process under a watchdog; returns {id: result dict with arrays}"""
+    """run the jobs in a child process under a watchdog; returns {id: result dict with arrays}.
+    A run that does not return is C07's subject (termination): it is recorded as status 'hang', counted,
+    and not judged here; too many of them make the check unusable (Hang -> exit 2)."""
     if not jobs:
         return {}
     d = ctx.tmpdir()
     out = {}
     pending = list(jobs)
-    hangs = 0
     while pending:
-        chunk, pending = pending[:60], pending[60:]
-        spec = dict(repo=common.repo_path(), dir=d,
-                    jobs=[{k: v for k, v in j.items() if not k.startswith('_')} for j in chunk])
-        jf = os.path.join(d, f"jobs_{chunk[0]['id']}.json")
-        json.dump(spec, open(jf, 'w'))
-        env = dict(os.environ)
-        env['PYTHONPATH'] = common.repo_path() + os.pathsep + env.get('PYTHONPATH', '')
-        p = subprocess.Popen([sys.executable, HERE, '--worker', jf], stdout=subprocess.PIPE, stderr=subprocess.PIPE,
-                             text=True, start_new_session=True, cwd=d, env=env)
-        try:
-            so, se = p.communicate(timeout=90 + 6 * len(chunk))
-        except subprocess.TimeoutExpired:
-            import signal
-            try:
-                os.killpg(p.pid, signal.SIGKILL)
-            except ProcessLookupError:
-                pass
-            so, se = p.communicate()
-            started = [int(l.split()[1]) for l in so.splitlines() if l.startswith('START')]
-            done = {int(l.split()[1]) for l in so.splitlines() if l.startswith('DONE')}
-            hung = [s for s in started if s not in done]
-            hangs += 1
-            ctx.count('watchdog-fired')
-            ctx.note(f"watchdog: BANE did not return for job(s) {hung} "
-                     f"({[dict((k, v) for k, v in j.items() if k in ('grid', 'box', 'nslice', 'cores', 'variant')) for j in chunk if j['id'] in hung]})")
-            if hangs > 2:
-                raise Hang("BANE hung repeatedly under configurations with realised stripes <= cores")
-            # re-queue what was never started
+        chunk, pending = pending[:80], pending[80:]
+        started, done, err, timed_out, rc = _run_chunk(d, chunk)
+        hung = [s for s in started if s not in done]
+        if timed_out:
+            for h in hung:
+                out[h] = dict(id=h, status='hang')
+                ctx.count('hang-skipped(C07)')
+                cfg = [dict((k, v) for k, v in j.items() if k in ('grid', 'box', 'nslice', 'cores', 'variant', 'mask'))
+                       for j in chunk if j['id'] == h]
+                ctx.note(f"watchdog: BANE did not return within {JOB_TIMEOUT:.0f} s for {cfg} (termination is C07's property; skipped here)")
             pending = [j for j in chunk if j['id'] not in started] + pending
+        elif rc != 0:
+            for h in hung:
+                out[h] = dict(id=h, status='crash', error=err)
+            rest = [j for j in chunk if j['id'] not in started]
+            if rest and started:
+                pending = rest + pending
+            elif rest:
+                raise Hang(f"the BANE worker process could not start: {err}")
+        ctx.extra['bane_runs'] = ctx.extra.get('bane_runs', 0) + len(started)
+        ctx.extra['bane_hangs'] = ctx.extra.get('bane_hangs', 0) + (len(hung) if timed_out else 0)
+        if ctx.extra['bane_hangs'] > 3 and ctx.extra['bane_hangs'] > MAX_HANG_FRACTION * ctx.extra['bane_runs']:
+            raise Hang(f"BANE hung in {ctx.extra['bane_hangs']} of {ctx.extra['bane_runs']} runs with realised stripes <= cores")
         for j in chunk:
             rf = os.path.join(d, f"res_{j['id']}.json")
             if not os.path.exists(rf):
-                if p.returncode not in (0, None) and j['id'] not in out and 'hung' not in locals():
-                    out[j['id']] = dict(id=j['id'], status='crash', error=(se or '')[-400:])
                 continue
             r = json.load(open(rf))
+            os.unlink(rf)
             for w in ('bkg', 'rms', 'file_bkg', 'file_rms'):
                 f = os.path.join(d, f"{w}_{j['id']}.npy")
                 if os.path.exists(f):
                     r[w] = np.load(f)
                     os.unlink(f)
-            for f in (f"in_{j['id']}.fits", f"out_{j['id']}_bkg.fits", f"out_{j['id']}_rms.fits"):
+            for f in (f"in_{j['id']}.fits", f"out_{j['id']}_bkg.fits", f"out_{j['id']}_rms.fits", j['img']):
                 try:
                     os.unlink(os.path.join(d, f))
                 except OSError:
@@ -444,6 +498,8 @@ def spec_single(ctx, job, res):
     img = job['_img']
     R, C = img.shape
     ok = True
+    if res.get('status') == 'hang':
+        return False
     if res.get('status') != 'ok':
         ctx.fail('spec', case_of(job), f"BANE did not produce maps: {res.get('status')} {res.get('error', '')}",
                  sig('no-maps', job, status=res.get('status')))
@@ -638,6 +694,8 @@ def metamorphic(ctx, base_jobs, results):
         r2 = res2.get(j2['id'])
         ctx.case(dict(shape=list(job['_img'].shape), grid=job['grid'], box=job['box'], nslice=job['nslice'], relation=kind, par=par))
         ctx.count('metamorphic-' + kind)
+        if r2 and r2.get('status') == 'hang':
+            continue
         if not r2 or r2.get('status') != 'ok' or 'bkg' not in r2:
             ctx.fail('spec', case_of(j2), f"BANE failed on the {kind} image: {r2 and r2.get('error')}", sig('no-maps', j2))
             continue
